@@ -37,7 +37,7 @@ FLOORS = {"pairs:NONTRIVIAL": 0.35, "pairs:expect-equal": 0.15, "pairs:expect-di
 
 MUTATIONS = [
     "swap_tuple", "frame_shift", "sibling_class", "move_ka_kb", "last_char", "type_only", "fs_permute",
-    "change_value", "noncompare_only", "drop_add_opt", "falsy_swap", "int_vs_str",
+    "change_value", "noncompare_only", "drop_add_opt", "falsy_swap", "int_vs_str", "bytes_alias",
     "child_to_other_field", "origins_only", "identical",
 ]
 
@@ -127,17 +127,23 @@ def _different_value(kind: str, cur: Any) -> Any:
         return {"$fs": [*c, "new"]}
     if kind == "str":
         return (cur or "") + "x"
+    if kind == "bytes":
+        # the neighbour most likely to be confused with it: the text of its own escape sequence
+        c = bytes.fromhex((cur or {"$b": ""})["$b"])
+        looks = {b"\xff": b"\\xff", b"\\xff": b"\xff", b"\xe9": b"\\xe9", b"\\xe9": b"\xe9", b"'": b"\\'", b"\\'": b"'",
+                 b"a\xffb": b"a\\xffb", b"a\\xffb": b"a\xffb", b"": b"\x00", b"\x00": b"\\x00"}
+        return {"$b": looks.get(c, c + b"\xff").hex()}
     raise ValueError(kind)
 
 
 def _default_spec_value(f: M.FieldDef) -> Any:
     return {"int": 0, "bool": False, "optint": None, "enum": {"$e": "RED"}, "tint": {"$t": []},
             "ft": {"$t": [0, ""]}, "fsint": {"$fs": []}, "fsstr": {"$fs": []}, "str": "",
-            "float": 0.0, "path": {"$p": "x"}, "lit": "a", "optstr": None}[f.kind]
+            "float": 0.0, "path": {"$p": "x"}, "lit": "a", "optstr": None, "bytes": {"$b": ""}}[f.kind]
 
 
 NEEDS = {
-    "noncompare_only": ["Vals"], "type_only": ["Vals", "LeafA"], "fs_permute": ["Vals"],
+    "noncompare_only": ["Vals"], "type_only": ["Vals", "LeafA"], "fs_permute": ["Vals"], "bytes_alias": ["Vals"],
     "swap_tuple": ["MixedItems"], "move_ka_kb": ["Uni"], "drop_add_opt": ["Uni"],
     "sibling_class": ["LeafA", "SubLeafA", "LeafB"], "last_char": ["Strs"], "falsy_swap": ["Falsy", "UniFalsy"],
     "frame_shift": ["Strs"], "int_vs_str": ["Strs"], "child_to_other_field": ["MixedItems", "MixedChild"],
@@ -206,7 +212,7 @@ def mutate(spec: dict, kind: str, n: int) -> tuple[dict, dict, bool]:
         if x is None:
             return a, b, False
         fs = [f for f in M.prop_fields(x["node"]["c"]) if f.init and f.compare and f.kind in
-              ("int", "bool", "optint", "enum", "tint", "ft", "fsint", "fsstr", "str")]
+              ("int", "bool", "optint", "enum", "tint", "ft", "fsint", "fsstr", "str", "bytes", "bytes")]
         f = fs[(n // 7) % len(fs)]
         p = x["node"].setdefault("p", {})
         p[f.name] = _different_value(f.kind, p.get(f.name, _default_spec_value(f)))
@@ -231,6 +237,16 @@ def mutate(spec: dict, kind: str, n: int) -> tuple[dict, dict, bool]:
         idx = nodes.index(x)
         spec_nodes(a)[idx]["node"].setdefault("p", {})[fname] = va
         x["node"].setdefault("p", {})[fname] = vb
+        return a, b, True
+    if kind == "bytes_alias":
+        x = pick(lambda x: x["node"]["c"] == "Vals")
+        if x is None:
+            return a, b, False
+        idx = nodes.index(x)
+        firsts = [b"\xff", b"\xe9", b"a\xffb", b"'", b"\x00", b"\xc3\x28"]
+        first = {"$b": firsts[n % len(firsts)].hex()}
+        spec_nodes(a)[idx]["node"].setdefault("p", {})["by"] = first
+        x["node"].setdefault("p", {})["by"] = _different_value("bytes", first)
         return a, b, True
     if kind == "fs_permute":
         x = pick(lambda x: x["node"]["c"] == "Vals")
@@ -372,6 +388,8 @@ def _enode_to_spec(e: T.ENode) -> dict:
             return v
         if isinstance(v, PurePath):
             return {"$p": v.as_posix()}
+        if isinstance(v, (bytes, bytearray)):
+            return {"$b": bytes(v).hex()}
         if isinstance(v, tuple):
             return {"$t": [enc(x) for x in v]}
         if isinstance(v, frozenset):
